@@ -171,10 +171,44 @@ def c19_4(ctx):
     ctx.check([norm(v) for v in m.assigns.get("ripemd160", [])] == ["get_best_ripemd160()"], "selection-bound", "%s:1" % HASH, "module-level ripemd160 is not get_best_ripemd160()")
 
 
+# ------------------------------------------------------------------ C19.3
+def c19_3(ctx):
+    """width hygiene (sa/wh.py): the 32-bit algorithms are written with unbounded integers, so every right shift -- the low half of
+    a rotate, the xor-shifts of the finaliser -- must act on a value already brought back to 32 bits, and the hash handed out is
+    reduced"""
+    from sa import wh
+    # the detector's positive and negative example (a rule that expects no finding keeps one that must be found)
+    probe = ast.parse("def rot(x, r):\n    return ((x << r) | (x >> (32 - r))) & 0xFFFFFFFF\n\ndef ok(x, r):\n    return ((x << r) | ((x & 0xFFFFFFFF) >> (32 - r))) & 0xFFFFFFFF\n")
+    pm = wh.Module(probe)
+    got = pm.run()
+    if [g[0] for g in got] != ["rot"] or pm.ret_state.get("ok") != wh.CLEAN:
+        raise AnalysisError("C19.3: the width-hygiene detector failed its self-check (%s)" % ([g[0] for g in got],))
+    for rel, must_return_clean in ((RMD, ("rol",)), (BLOOM, ("murmur3",))):
+        m = ctx.p.module(rel)
+        wm = wh.Module(m.tree)
+        finds = wm.run()
+        for fname, node, msg in finds:
+            ctx.bad("unreduced-shift:%s" % fname, "%s:%d" % (rel, node.lineno), "%s: %s" % (fname, msg))
+        ctx.check(wm.shifts > 0 or rel != RMD, "shifts-analysed:%s" % rel, rel + ":1", "no right shift found in %s" % rel, sample={"module": rel, "right_shifts_analysed": wm.shifts, "findings": len(finds)})
+        for fn in must_return_clean:
+            if fn not in wm.funcs:
+                ctx.undecided("result-reduced:%s" % fn, rel + ":1", "%s is no longer a function of %s" % (fn, rel))
+                continue
+            st = wm.ret_state.get(fn)
+            if st == wh.CLEAN:
+                ctx.ok("result-reduced:%s" % fn, sample={"function": fn, "result": "reduced to 32 bits on every return"})
+            elif st == wh.DIRTY:
+                ctx.bad("result-reduced:%s" % fn, "%s:%d" % (rel, wm.funcs[fn].lineno), "%s returns a value that is %s on some path: the hash handed out must be reduced to 32 bits (a seed of 2^32 or more, or a negative one, shows through)" % (fn, wh.NAMES[wh.DIRTY]))
+            else:
+                ctx.undecided("result-reduced:%s" % fn, "%s:%d" % (rel, wm.funcs[fn].lineno), "%s: the analysis cannot tell whether the returned value is reduced to 32 bits" % fn)
+
+
 OBLIGATIONS = [
     Ob("C19.1", "RIPEMD-160 tables re-derived from the specification; round functions, rotation, compression and padding equal the reference transcription (canonical forms)", c19_1, floor=10, engines="TB,SYM", exhaustive=True,
        breaks_if="any input when the pure-Python fallback is active (lengths at multiples of 64 for the padding)"),
     Ob("C19.2", "MurmurHash3_x86_32 and the BIP37 seed / bit addressing equal the reference transcription (canonical forms; tail switch decided on len & 3)", c19_2, floor=7, engines="SYM,GI",
        breaks_if="items with len % 4 in {1,2,3}; any seed"),
+    Ob("C19.3", "width hygiene: every right shift of the 32-bit algorithms acts on a value reduced to 32 bits; rol / murmur3 hand out reduced values", c19_3, floor=4, engines="WH",
+       breaks_if="second and later RIPEMD-160 blocks (state above 2^32); seeds of 2^32 and more; inputs shorter than 4 bytes"),
     Ob("C19.4", "implementation selection falls through to a factory on every path; compound hashes", c19_4, floor=8, engines="SYM", breaks_if="56-byte inputs under the fallback"),
 ]
